@@ -16,6 +16,7 @@ import (
 	"os/exec"
 	"strings"
 	"sync"
+	"time"
 
 	"filippo.io/age"
 	"filippo.io/age/agessh"
@@ -59,7 +60,11 @@ func sharedValues() []shared {
 	// a passphrase recipient left at its default work factor (the build replaces scrypt above 2^12 by a cheap stand-in)
 	srDef, _ := age.NewScryptRecipient("shared passphrase")
 	siDef, _ := age.NewScryptIdentity("shared passphrase")
-	return []shared{{"x25519", x.Recipient(), x}, {"scrypt", sr, si}, {"scrypt(default work factor)", srDef, siDef}, {"ssh-ed25519", ed.Recipient(), ed}, {"ssh-rsa", rsa.Recipient(), rsa}, {"ssh-rsa(key from components)", rsaRaw.Recipient(), rsaRaw}}
+	// and one configured above the default (work factor 20)
+	sr20, _ := age.NewScryptRecipient("shared passphrase")
+	sr20.SetWorkFactor(20)
+	si20, _ := age.NewScryptIdentity("shared passphrase")
+	return []shared{{"x25519", x.Recipient(), x}, {"scrypt", sr, si}, {"scrypt(default work factor)", srDef, siDef}, {"scrypt(work factor 20)", sr20, si20}, {"ssh-ed25519", ed.Recipient(), ed}, {"ssh-rsa", rsa.Recipient(), rsa}, {"ssh-rsa(key from components)", rsaRaw.Recipient(), rsaRaw}}
 }
 
 func child(goroutines, rounds int) {
@@ -162,7 +167,7 @@ func main() {
 		if c.Thorough() {
 			configs = append(configs, [2]int{3, 20}, [2]int{8, 20}, [2]int{32, 8}, [2]int{64, 4})
 		}
-		c.Bound("free-running goroutines (fork-join, no synchronisation between operations) sharing one recipient and one identity value per key type {x25519, scrypt, ssh-ed25519, ssh-rsa, ssh-rsa with a key assembled from its components}: %v (goroutines, rounds) of Encrypt+Decrypt round trips and Decrypt of pre-made files of 4 sizes and of a file with trailing data (must fail), built with -race", configs)
+		c.Bound("free-running goroutines (fork-join, no synchronisation between operations) sharing one recipient and one identity value per key type {x25519, scrypt, ssh-ed25519, ssh-rsa, ssh-rsa with a key assembled from its components, passphrase recipients at the default work factor and at 20}: %v (goroutines, rounds) of Encrypt+Decrypt round trips and Decrypt of pre-made files of 4 sizes and of a file with trailing data (must fail), built with -race", configs)
 		for ci, cfg := range configs {
 			if !c.MineKey(ci) {
 				continue
@@ -172,7 +177,20 @@ func main() {
 			cmd.Env = append(os.Environ(), fmt.Sprintf("VERIF_RACE_CHILD=%d,%d", cfg[0], cfg[1]), "GORACE=halt_on_error=0 exitcode=66", "GOMAXPROCS=16")
 			var out, errb bytes.Buffer
 			cmd.Stdout, cmd.Stderr = &out, &errb
-			err := cmd.Run()
+			// a child that is still running after 5 minutes (it needs seconds) is reported as hung
+			err := cmd.Start()
+			if err == nil {
+				done := make(chan error, 1)
+				go func() { done <- cmd.Wait() }()
+				select {
+				case err = <-done:
+				case <-time.After(5 * time.Minute):
+					cmd.Process.Kill()
+					<-done
+					c.Fail("concurrent-operations-never-finish", fmt.Sprintf("g%d.r%d", cfg[0], cfg[1]), "the goroutines sharing recipient and identity values did not finish within 5 minutes", map[string]interface{}{"goroutines": cfg[0], "rounds": cfg[1], "output": ev.Clip(out.String(), 500)})
+					continue
+				}
+			}
 			id := fmt.Sprintf("g%d.r%d", cfg[0], cfg[1])
 			var ops int64
 			for _, l := range strings.Split(out.String(), "\n") {
